@@ -332,3 +332,15 @@ if __name__ == "__main__":
         cmd_checks(sys.argv[2] if len(sys.argv) > 2 else None)
     elif cmd == "report":
         cmd_report()
+    elif cmd == "one":
+        # automut.py one <mutant id> <pid> [<pid> ...]: full quick tier of the given checks against one mutant
+        allm = {m["id"]: m for m in json.loads((OUT / "mutants.json").read_text())}
+        m = allm[sys.argv[2]]
+        repo = _scratch("one")
+        (repo / m["file"]).write_text(m["src"])
+        try:
+            for pid in sys.argv[3:]:
+                p = subprocess.run(["/venv/bin/python", "-m", "vpbt", pid, "--tier", os.environ.get("TIER", "quick"), "--no-evidence"], cwd=VERIF, capture_output=True, text=True, env=dict(os.environ, VERIF_REPO=str(repo), VPBT_FOUND_DIR=str(SCR / "foundone")))
+                print(pid, p.returncode, [l[:200] for l in p.stdout.splitlines() if l.startswith("violation-detail")][:3])
+        finally:
+            shutil.rmtree(SCR, ignore_errors=True)
